@@ -342,7 +342,26 @@ func runC13(c *Ctx, r *Rec) {
 				}
 			}
 		}
-		r.check(okDel, "D3-views", c.fdName(fd), c.pos(fd.Pos()), "returns storage."+vname+"() (top first)", "the view is not the storage's own "+vname+"(): order or content may differ from top-to-bottom")
+		if okDel {
+			r.ok("D3-views", c.fdName(fd), c.pos(fd.Pos()), "returns storage."+vname+"() (top first)")
+			continue
+		}
+		// not a plain delegation: evidence against the view is a reordering or a second source
+		tampered := ""
+		inspectNoLit(fd.Body, func(x ast.Node) bool {
+			if _, mname, _, ok := methodCall(x); ok {
+				switch mname {
+				case "ReverseValues", "SortValues", "SortValuesWithRanker", "ShuffleValues", "RemoveValue", "RemoveValues", "InsertValue":
+					tampered = mname
+				}
+			}
+			return true
+		})
+		if tampered != "" {
+			r.fail("D3-views", c.fdName(fd), c.pos(fd.Pos()), "the view is computed with "+tampered+": its order or content differs from the stack's top-to-bottom order")
+		} else {
+			r.skip("D3-views", c.fdName(fd), c.pos(fd.Pos()), "the view is not a plain delegation to the storage's "+vname+"()")
+		}
 	}
 
 	// ---- D4 single gate
